@@ -176,6 +176,17 @@ def run(ctx):
                 defs = [n for n in walk_no_nested(v.fi.node) if isinstance(n, ast.Assign) and isinstance(n.targets[0], ast.Name) and n.targets[0].id == arg.id]
                 src = defs[-1].value if defs else None
             verdict, why = _row_ordered(v, src)
+            # `degrees = <values of D in D's order>; rows = [index_of[k] for k in D]; diag = degrees[rows]` is a GATHER: entry r receives the
+            # value at position rows[r], i.e. the INVERSE of the intended placement (right only for permutations that are their own
+            # inverse).  Placing value i at row rows[i] is a scatter: `diag[rows] = degrees`
+            if isinstance(src, ast.Subscript) and isinstance(src.ctx, ast.Load) and isinstance(src.value, ast.Name) and isinstance(src.slice, ast.Name):
+                vals_ = v.inline(src.value, depth=1)
+                rows_ = v.inline(src.slice, depth=1)
+                if isinstance(rows_, ast.ListComp) and len(rows_.generators) == 1 and isinstance(rows_.elt, ast.Subscript):
+                    pop_ = norm(rows_.generators[0].iter)
+                    same_pop = any(isinstance(x, (ast.Name, ast.Attribute, ast.Call)) and norm(x) in (pop_, pop_ + ".values()", pop_ + ".keys()") for x in ast.walk(vals_))
+                    if same_pop:
+                        verdict, why = "violation", f"`{norm(src)}` indexes the values (listed in the order of `{pop_}`) BY the row numbers computed for the same order: that gathers - row r gets the value of the rows[r]-th item - where the values have to be scattered to their rows (`out[rows] = values`); the two agree only when the permutation is its own inverse"
             res.add("R-ROWORDER", f, norm(src) if src is not None else norm(arg), "diagonal", verdict, why, loc(v.fi, d))
     # ---- W-ORDER
     with res.guard("W-ORDER"):
